@@ -178,7 +178,13 @@ def r234(ctx: Ctx, roles, d: Func) -> None:
         if known:
             ctx.ob("C12.R2", d, f"type {i}: defined id reaches the lookup", bool(hit) and outcome.startswith("selects"), f"{outcome}")
         else:
-            unknown_ok = (not hit and bool(explicit)) or (bool(hit) and outcome in ("raises",)) or (bool(hit) and outcome == "missing")
+            # a third spelling of the unknown-type path: the id is sorted out before the lookup and the function
+            # returns having done nothing but logging (no package call, no store, no delivery)
+            quiet = False
+            if not hit and not explicit and g.exit in reach and not (set(subs_lookup) & reach):
+                acts = [n for n in reach if n.ast is not None and n.kind in ("stmt", "cond") and (any(res.callees(d, c).kind != "lib" for c in node_calls(n)) or (n.kind == "stmt" and isinstance(n.ast, (ast.Assign, ast.AugAssign)) and any(isinstance(x, ast.Attribute) and isinstance(x.ctx, ast.Store) for x in walk_own(n.ast))))]
+                quiet = not acts
+            unknown_ok = (not hit and bool(explicit)) or (bool(hit) and outcome in ("raises",)) or (bool(hit) and outcome == "missing") or quiet
             ctx.ob("C12.R2", d, f"type {i}: undefined id ends on the unknown-type path", unknown_ok and idx_ok, f"{outcome}; explicit raise reachable: {bool(explicit)}")
     ctx.analysed["type_points_walked"] = points
 
